@@ -217,7 +217,13 @@ func SubIFDsTIFF(rt *rapid.T) ([]byte, string) {
 	out = bo.AppendUint16(out, 0)
 	out = bo.AppendUint16(out, 0x014a)
 	out = bo.AppendUint16(out, 4)
-	out = bo.AppendUint32(out, uint32(n))
+	declared := uint32(n)
+	if n >= 2 && rapid.IntRange(0, 3).Draw(rt, "sub.wrap?") == 0 {
+		// a count whose size in bytes (4 x count) wraps 32 bits to the real size of the array: the value is read like an
+		// honest one, and whatever loops up to the count loops a billion times
+		declared |= uint32(rapid.IntRange(1, 3).Draw(rt, "sub.wrap")) << 30
+	}
+	out = bo.AppendUint32(out, declared)
 	ptr := func(i int) uint32 {
 		fwd := uint32(subAt + i*18)
 		switch kind {
